@@ -55,6 +55,34 @@ Definition apply_range {T} (items : list T) (r : range) : outcome (list T) :=
       if e_idx <=? s_idx then Ok [] else slice_range items s_idx e_idx))
   end.
 
+(* The same control flow over mathematical integers (what the machine code
+   computes whenever nothing overflows): this is what the interpreter model
+   uses.  [apply_range_checked_is_m] (Proofs/RangeP.v) shows the checked version
+   above returns exactly this, without panicking, for every bound in isize and
+   every length Rust can hold. *)
+Definition resolve_index_m (idx len : Z) : Z :=
+  let resolved := if idx <? 0 then len + idx else idx in
+  Z.max 0 (Z.min resolved (Z.max len 0)).
+
+Definition apply_range_m {T} (items : list T) (r : range) : list T :=
+  let len := Z.of_nat (length items) in
+  if len =? 0 then [] else
+  match r with
+  | Index idx =>
+      let i := Z.min (resolve_index_m idx len) (len - 1) in
+      match nth_error items (Z.to_nat i) with
+      | Some x => [x]
+      | None => []
+      end
+  | Range a b inc =>
+      let s_idx := match a with None => 0 | Some s => resolve_index_m s len end in
+      if len <=? s_idx then [] else
+      let e0 := match b with None => len | Some e => resolve_index_m e len end in
+      let e1 := if inc then e0 + 1 else e0 in
+      let e_idx := Z.min e1 len in
+      if e_idx <=? s_idx then [] else firstn (Z.to_nat (e_idx - s_idx)) (skipn (Z.to_nat s_idx) items)
+  end.
+
 (* ---- Spec: the documented rule --------------------------------------- *)
 
 (* a bound counted from the end when negative, clamped to [0, len] *)
